@@ -386,3 +386,64 @@ def through_lets(e, env, depth=6):
         else:
             out[k] = v
     return out
+
+
+# ---- branches ---------------------------------------------------------------------------------------------------------------------------
+def as_branch(e):
+    """(cond, then, else|None) of an `if` / two-armed bool `match`, leading negations of the condition folded into the branch order"""
+    if e is None:
+        return None
+    e = strip(e)
+    while e.get("k") == "DropTemps":
+        e = strip(e["e"])
+    c = t = el = None
+    if e.get("k") == "If":
+        c, t, el = e["cond"], e["then"], e.get("else")
+    elif e.get("k") == "Match" and len(e["arms"]) == 2 and "Desugar" not in e.get("source", "") and "ForLoop" not in e.get("source", ""):
+        bools = {}
+        for a in e["arms"]:
+            q = a["pat"]
+            if a.get("guard"):
+                return None
+            if q.get("k") == "Expr" and q["expr"].get("k") == "Lit" and isinstance(q["expr"]["lit"].get("v"), bool):
+                bools[q["expr"]["lit"]["v"]] = a
+            elif q.get("k") == "Wild":
+                bools.setdefault("_", a)
+        if len(bools) != 2 or not (True in bools or False in bools):
+            return None
+        t_arm = bools.get(True, bools.get("_"))
+        f_arm = bools.get(False, bools.get("_"))
+        c, t, el = e["scrut"], t_arm["body"], f_arm["body"]
+    else:
+        return None
+    c = strip(c)
+    while True:
+        while c.get("k") == "DropTemps":
+            c = strip(c["e"])
+        if c.get("k") == "Unary" and c.get("op") in ("!", "Not"):
+            c = strip(c["e"])
+            t, el = el, t
+            continue
+        break
+    return c, t, el
+
+def leaves(e):
+    """does control never fall out of the end of expression/block `e`? (return / break / continue on every path)"""
+    if e is None:
+        return False
+    e = strip(e)
+    k = e.get("k")
+    if k in ("Ret", "Break", "Continue"):
+        return True
+    if k == "DropTemps":
+        return leaves(e["e"])
+    if k == "Block":
+        for st in e["stmts"]:
+            if st["k"] in ("Semi", "Expr") and leaves(st["expr"]):
+                return True
+        return leaves(e.get("expr"))
+    br = as_branch(e)
+    if br:
+        return br[1] is not None and br[2] is not None and leaves(br[1]) and leaves(br[2])
+    return False
+
